@@ -21,8 +21,8 @@ from sqllineage.core.metadata.dummy import DummyMetaDataProvider
 from sqllineage.runner import LineageRunner
 
 COLS = {
-    "none": {"s.a": ["id", "a1", "a2"], "s.b": ["bid", "b1"], "s.c": ["cid", "c1"], "s.o": ["o1", "o2"]},
-    "partial": {"s.a": ["id", "x", "a2"], "s.b": ["id", "x", "b1"], "s.c": ["id", "c1"], "s.o": ["o1", "o2"]},
+    "none": {"s.a": ["id", "a1", "a2"], "s.b": ["bid", "b1"], "s.c": ["cid", "c1"], "s.o": ["zk", "ak"]},
+    "partial": {"s.a": ["id", "x", "a2"], "s.b": ["id", "x", "b1"], "s.c": ["id", "c1"], "s.o": ["zk", "ak"]},
 }
 _sa_cache = {}
 
@@ -87,14 +87,12 @@ def cases(thorough):
 
     def unq(col, tabs):
         def oracle(known):
-            if not any(t in known for t in tabs):
-                return "unknown_tables_answer_as_without_metadata", None
             listing = [t for t in tabs if t in known and col in known[t]]
-            unknown = [t for t in tabs if t not in known]
-            if listing and not unknown:
+            if listing:
+                # exactly the in-scope tables whose metadata lists the column, whatever else is unknown
                 return "unqualified_column_attributed_to_exactly_the_listing_tables", sorted((f"{t}.{col}", f"s.o.{col}") for t in listing)
-            # some table unknown: at least never attribute to a known table that lacks it
-            return "never_attributed_to_a_known_table_lacking_it", ("never", [f"{t}.{col}" for t in tabs if t in known and col not in known[t]])
+            # nobody lists it: nothing to refine, the answer is the one without metadata (unresolved, with candidates)
+            return "unknown_tables_answer_as_without_metadata", None
 
         return oracle
 
